@@ -95,14 +95,14 @@ func run(c *core.Ctx, idx int) {
 		// random towgs84 clauses stay small (|t| <= 100 m, |r| <= 1", |s| <= 2 ppm): the
 		// documented inverse of a 7-parameter shift is first order, so the WGS84 hop between a
 		// system and the geographic system on its own datum is the identity only to O(r^2 R)
-		d = crsgen.Gen(r, &crsgen.Options{SmallTowgs: true})
+		d = crsgen.Gen(r, &crsgen.Options{SmallTowgs: true, NoBothDatum: true})
 		geo = d.Geographic().String()
 		partner = "same_datum"
 	case mode <= 7:
 		da := crsgen.Datums[r.Intn(len(crsgen.Datums))]
 		area = &da
 		for try := 0; ; try++ {
-			d = crsgen.Gen(r, &crsgen.Options{DatKinds: []string{"named"}, Area: area})
+			d = crsgen.Gen(r, &crsgen.Options{DatKinds: []string{"named"}, Area: area, NoBothDatum: true})
 			if d.Proj == "krovak" {
 				da = crsgen.Datums[11] // s_jtsk
 				area = &da
